@@ -137,6 +137,30 @@ func (a *absConfig) wellFormed() (bool, string) {
 			}
 		}
 	}
+	// a cyclic depends_on relation is rejected as well (that equivalence is C05's)
+	for pn, stages := range a.Pipelines {
+		col := map[string]int{}
+		deps := map[string][]string{}
+		for _, s := range stages {
+			deps[s.eff()] = s.Deps
+		}
+		var dfs func(n string) bool
+		dfs = func(n string) bool {
+			col[n] = 1
+			for _, d := range deps[n] {
+				if col[d] == 1 || (col[d] == 0 && dfs(d)) {
+					return true
+				}
+			}
+			col[n] = 2
+			return false
+		}
+		for _, s := range stages {
+			if col[s.eff()] == 0 && dfs(s.eff()) {
+				return false, "depends_on cycle in " + pn
+			}
+		}
+	}
 	// inclusion cycles
 	state := map[string]int{}
 	var visit func(p string) bool
